@@ -131,6 +131,7 @@ double now_s();
 
 // shared random helpers for drivers
 sim::Sched random_sched(Rng &rng, bool allow_spurious = true);
+void random_stall(Rng &rng, sim::Sched &s, int mode);   // mode 0 compression tasks, 1 decompression tasks
 sim::Frag random_frag(Rng &rng);
 int random_workers(Rng &rng);
 
